@@ -70,7 +70,7 @@ def register2(reg, stubs, world):
 
     def dc_frame(cx, f, old, new):
         r = z3.Int('dc!r')
-        return [qforall([r], z3.Implies(r < cx.st0.ap, z3.Select(new, r) == z3.Select(old, r)))]
+        return [qforall([r], z3.Implies(r < cx.st0.ap, z3.Select(new, r) == z3.Select(old, r)), patterns=[z3.Select(new, r)])]
     DC_FIELDS = ('_name', '_check_str', '_check', '_description', '_deprecated_rule', '_deprecated_for_removal',
                  '_deprecated_reason', '_deprecated_since', 'scope_types', '_operations', '$val', 'rules', 'rule',
                  'kind', 'match')
@@ -116,8 +116,8 @@ def register2(reg, stubs, world):
         regs = cx.old(cx['self'], 'registered_rules')
         r = z3.Int('rf!r')
         if f == '$val':
-            return [qforall([r], z3.Implies(z3.And(r < cx.st0.ap, r != V.ref(regs)), z3.Select(new, r) == z3.Select(old, r)))]
-        return [qforall([r], z3.Implies(r < cx.st0.ap, z3.Select(new, r) == z3.Select(old, r)))]
+            return [qforall([r], z3.Implies(z3.And(r < cx.st0.ap, r != V.ref(regs)), z3.Select(new, r) == z3.Select(old, r)), patterns=[z3.Select(new, r)])]
+        return [qforall([r], z3.Implies(r < cx.st0.ap, z3.Select(new, r) == z3.Select(old, r)), patterns=[z3.Select(new, r)])]
     reg.add(Contract('policy:Enforcer.register_default', pre=regd_pre, post=regd_post, raises=('DuplicatePolicyError',),
                      modifies=DC_FIELDS, frame=regd_frame, allocates=True, heap_axioms=tree_axioms, props=('C12',),
                      doc='registration stores a deep copy: the caller\'s RuleDefault is neither stored nor written'))
@@ -160,7 +160,13 @@ def register_cache(reg, stubs, world):
                               patterns=[e]))
 
     def rc_pre(cx):
+        from specs.wf import fp
+        eng, st, cache = cx.eng, cx.st0, cx['cache']
+        k = z3.String('rcp!k')
+        e = z3.Select(V.m(z3.Select(st.H('$val'), V.ref(cache))), k)
         return [('cache-holds-well-formed-entries', cache_ok(cx.eng, cx.st0, cx['cache'])),
+                ('the-cache-is-not-part-of-a-check-tree-or-rule-store', z3.And(
+                    z3.Not(fp(V.ref(cache))), qforall([k], z3.Implies(e != ABSENT, z3.Not(fp(V.ref(e)))), patterns=[e]))),
                 ('filename-is-a-string', V.is_str(cx['filename'])),
                 ('force-is-a-boolean', V.is_bool(cx['force_reload']))]
 
@@ -198,12 +204,24 @@ def register_cache(reg, stubs, world):
                     z3.And(data == V.str(fs_content(f)),
                            z3.Select(em1, z3.StringVal('data')) == V.str(fs_content(f)),
                            z3.Select(em1, z3.StringVal('mtime')) == V.float(fs_mtime(f))))),
+                ('the-entry-for-the-file-is-the-old-one-or-a-fresh-dict', z3.Implies(fs_exists(f), z3.And(
+                    e1 != ABSENT, V.is_obj(e1), clsof(V.ref(e1)) == eng.cid('dict'),
+                    z3.Or(z3.And(e0 != ABSENT, e1 == e0), V.ref(e1) >= st.ap)))),
                 ('otherwise-serves-the-cached-text-untouched', z3.Implies(
                     z3.And(fs_exists(f), reloaded != TRUE),
                     z3.And(reloaded == FALSE, z3.Not(reload_), data == z3.Select(em0, z3.StringVal('data')), e1 == e0,
                            eng.val(s1, e1) == eng.val(st, e0))))]
+    def rc_frame(cx, f, old, new):
+        # of the objects that existed before, only the cache dict and its entry for this file are written
+        eng, st = cx.eng, cx.st0
+        cache, fn = cx['cache'], V.s(cx['filename'])
+        e0 = z3.Select(V.m(eng.val(st, cache)), fn)
+        r = z3.Int('rcf!r')
+        return [qforall([r], z3.Implies(z3.And(r < st.ap, r != V.ref(cache), z3.Or(e0 == ABSENT, r != V.ref(e0))),
+                                        z3.Select(new, r) == z3.Select(old, r)))]
     reg.add(Contract('_cache_handler:read_cached_file', pre=rc_pre, post=rc_post,
-                     raises=('cfg.ConfigFilesPermissionDeniedError',), modifies=('$val',), frame=lambda cx, f, o, n: [],
+                     raises=('cfg.ConfigFilesPermissionDeniedError',), modifies=('$val',), frame=rc_frame,
+                     preserves=('wf_tree', 'tree_height', 'pr', 'wf_eval'),
                      allocates=True, props=('C10',),
                      cases=lambda cx: [z3.And(z3.Select(V.m(cx.eng.val(cx.st0, cx['cache'])), V.s(cx['filename'])) != ABSENT,
                                               z3.Not(truthy(cx['force_reload']))),
@@ -228,7 +246,7 @@ def register_cache(reg, stubs, world):
 
     def only_cache(cx, f, old, new):
         r = z3.Int('oc!r')
-        return [qforall([r], z3.Implies(r != V.ref(cx['cache']), z3.Select(new, r) == z3.Select(old, r)))]
+        return [qforall([r], z3.Implies(r != V.ref(cx['cache']), z3.Select(new, r) == z3.Select(old, r)), patterns=[z3.Select(new, r)])]
     reg.add(Contract('_cache_handler:delete_cached_file', pre=dc_pre, post=dc_post, modifies=('$val',),
                      frame=only_cache, props=('C10',)))
 
@@ -340,7 +358,7 @@ def register_chain(reg, stubs, world):
 
     def fresh_only_frame(cx, f, old, new):
         r = z3.Int('fo!r')
-        return [qforall([r], z3.Implies(r < cx.st0.ap, z3.Select(new, r) == z3.Select(old, r)))]
+        return [qforall([r], z3.Implies(r < cx.st0.ap, z3.Select(new, r) == z3.Select(old, r)), patterns=[z3.Select(new, r)])]
     reg.add(Contract('_parser:parse_rule', post=pr_post, allocates=True, trusted=True,
                      modifies=('rules', 'rule', 'kind', 'match', '$val'), frame=fresh_only_frame,
                      preserves=('wf_tree', 'wf_eval', 'pr'),
@@ -373,14 +391,26 @@ def register_chain(reg, stubs, world):
         return z3.And(V.is_obj(G), clsof(V.ref(G)) == eng.cid('dict'), V.is_dict(z3.Select(st.H('$val'), V.ref(G))),
                       qforall([k], z3.Implies(e != ABSENT, rule_obj_ok(eng, st, e, 'RuleDefault')), patterns=[e]))
 
+    def registry_old(eng, st, s, ap0):
+        G = z3.Select(st.H('registered_rules'), V.ref(s))
+        gm = V.m(z3.Select(st.H('$val'), V.ref(G)))
+        k = z3.String('ro!k')
+        e = z3.Select(gm, k)
+        return z3.And(V.ref(G) < ap0, qforall([k], z3.Implies(e != ABSENT, V.ref(e) < ap0), patterns=[e]))
+
+    RFR_MODS = ('file_rules', '$val', '_name', '_check_str', '_check', '_description', '_deprecated_rule',
+                '_deprecated_for_removal', '_deprecated_reason', '_deprecated_since', 'scope_types', 'rules', 'rule', 'kind', 'match')
+
     def rfr_pre(cx):
         eng, st, s = cx.eng, cx.st0, cx['self']
         F = z3.Select(st.H('file_rules'), V.ref(s))
         G = z3.Select(st.H('registered_rules'), V.ref(s))
         return [('enforcer-object', z3.And(V.is_obj(s), eng.isinst_ref(V.ref(s), 'Enforcer'))),
-                ('file-rules-record-holds-rule-defaults', file_rules_ok(eng, st, s)),
+                ('file-rules-record-is-a-dict-object', z3.And(V.is_obj(F), clsof(V.ref(F)) == eng.cid('dict'),
+                                                              V.is_dict(z3.Select(st.H('$val'), V.ref(F))))),
                 ('registry-holds-rule-defaults', registry_ok(eng, st, s)),
                 ('record-and-registry-are-different-objects', V.ref(F) != V.ref(G)),
+                ('the-record-is-not-part-of-a-check-tree-or-rule-store', z3.Not(fp(V.ref(F)))),
                 ('data-is-text', V.is_str(cx['data'])),
                 ('rule-values-in-the-file-are-strings', all_text(V.s(cx['data']))),
                 ('overwrite-is-a-boolean', V.is_bool(cx['overwrite']))]
@@ -397,7 +427,7 @@ def register_chain(reg, stubs, world):
         k = z3.String('rf!k')
         e1 = z3.Select(m1, k)
         return [('only-for-parseable-text', parse_ok(d)),
-                ('record-stays-a-record-of-rule-defaults', file_rules_ok(eng, s1, s)),
+                ('record-stays-a-dict-object', z3.And(V.is_obj(F1), clsof(V.ref(F1)) == eng.cid('dict'), V.is_dict(eng.val(s1, F1)))),
                 ('overwrite-starts-a-new-record', z3.Implies(ow, z3.And(V.ref(F1) >= st.ap, qforall([k], z3.Implies(
                     z3.Select(P, k) == ABSENT, e1 == ABSENT))))),
                 ('update-keeps-the-record-object-and-its-other-entries', z3.Implies(z3.Not(ow), z3.And(F1 == F0, qforall([k], z3.Implies(
@@ -423,11 +453,22 @@ def register_chain(reg, stubs, world):
         j = z3.Int('ri!j')
         e1 = z3.Select(m1, k)
         visited = lambda kk: z3.Exists([j], z3.And(j >= 0, j < L.i, K[j] == kk))
-        return [('record-object-fixed-during-the-loop', z3.And(F1 == eng.get(L.entry, s, 'file_rules'),
+        r = z3.Int('ri!r')
+        frame_inv = []
+        for f in RFR_MODS:
+            exempt = V.ref(s) if f == 'file_rules' else (V.ref(F0) if f == '$val' else None)
+            cond = r < L.cx.st0.ap if exempt is None else z3.And(r < L.cx.st0.ap, r != exempt)
+            frame_inv.append(qforall([r], z3.Implies(cond, z3.Select(st.H(f), r) == z3.Select(L.cx.st0.H(f), r))))
+        return [('objects-that-existed-before-are-untouched-except-the-record', z3.And(frame_inv)),
+                ('record-object-fixed-during-the-loop', z3.And(F1 == eng.get(L.entry, s, 'file_rules'),
                                                              z3.If(ow, V.ref(F1) >= L.cx.st0.ap, F1 == F0))),
-                ('record-stays-well-formed', file_rules_ok(eng, st, s)),
+                ('record-stays-a-dict-object', z3.And(V.is_obj(F1), clsof(V.ref(F1)) == eng.cid('dict'), V.is_dict(eng.val(st, F1)),
+                                                      V.ref(F1) != V.ref(eng.get(L.cx.st0, s, 'registered_rules')))),
+                ('registry-still-holds-rule-defaults', registry_ok(eng, st, s)),
+                ('registered-objects-existed-before', registry_old(eng, st, s, L.cx.st0.ap)),
                 ('visited-names-recorded', qforall([j], z3.Implies(z3.And(j >= 0, j < L.i), z3.And(
-                    z3.Select(m1, K[j]) != ABSENT, V.ref(z3.Select(m1, K[j])) >= L.cx.st0.ap,
+                    z3.Select(m1, K[j]) != ABSENT, V.is_obj(z3.Select(m1, K[j])), V.ref(z3.Select(m1, K[j])) >= L.cx.st0.ap,
+                    V.ref(z3.Select(m1, K[j])) < st.ap,
                     eng.get(st, z3.Select(m1, K[j]), '_name') == V.str(K[j]),
                     eng.get(st, z3.Select(m1, K[j]), '_check_str') == z3.Select(P, K[j]))))),
                 ('names-not-in-the-file-as-before', qforall([k], z3.Implies(z3.Select(P, k) == ABSENT,
@@ -436,8 +477,6 @@ def register_chain(reg, stubs, world):
                     eng.get(st, s, 'rules') == eng.get(L.cx.st0, s, 'rules'),
                     eng.get(st, s, 'registered_rules') == eng.get(L.cx.st0, s, 'registered_rules'),
                     eng.val(st, eng.get(st, s, 'registered_rules')) == eng.val(L.cx.st0, eng.get(st, s, 'registered_rules'))))]
-    RFR_MODS = ('file_rules', '$val', '_name', '_check_str', '_check', '_description', '_deprecated_rule',
-                '_deprecated_for_removal', '_deprecated_reason', '_deprecated_since', 'scope_types', 'rules', 'rule', 'kind', 'match')
 
     def rfr_frame(cx, f, old, new):
         # of the objects that existed before: the enforcer's file_rules slot, and (update mode) the record dict
@@ -445,13 +484,186 @@ def register_chain(reg, stubs, world):
         r = z3.Int('rfr!r')
         F0 = cx.old(s, 'file_rules')
         if f == 'file_rules':
-            return [qforall([r], z3.Implies(z3.And(r < cx.st0.ap, r != V.ref(s)), z3.Select(new, r) == z3.Select(old, r)))]
+            return [qforall([r], z3.Implies(z3.And(r < cx.st0.ap, r != V.ref(s)), z3.Select(new, r) == z3.Select(old, r)), patterns=[z3.Select(new, r)])]
         if f == '$val':
-            return [qforall([r], z3.Implies(z3.And(r < cx.st0.ap, r != V.ref(F0)), z3.Select(new, r) == z3.Select(old, r)))]
-        return [qforall([r], z3.Implies(r < cx.st0.ap, z3.Select(new, r) == z3.Select(old, r)))]
+            return [qforall([r], z3.Implies(z3.And(r < cx.st0.ap, r != V.ref(F0)), z3.Select(new, r) == z3.Select(old, r)), patterns=[z3.Select(new, r)])]
+        return [qforall([r], z3.Implies(r < cx.st0.ap, z3.Select(new, r) == z3.Select(old, r)), patterns=[z3.Select(new, r)])]
     reg.add(Contract('policy:Enforcer._record_file_rules', pre=rfr_pre, post=rfr_post, raises=('ValueError',),
                      modifies=RFR_MODS, frame=rfr_frame, allocates=True,
                      loops={1: LoopSpec(rfr_inv, havoc=RFR_MODS, fresh_only=False)},
                      heap_axioms=tree_axioms, props=('C11', 'C12'),
                      doc='the record of file-defined rules that _handle_deprecated_rule consults: rebuilt (overwrite) or '
                          'extended (update) with one fresh RuleDefault per name in the file, nothing else touched'))
+
+
+def register_chain2(reg, stubs, world):
+    """_load_policy_file (C10, C20): one file read through the cache and applied to the stores"""
+    from specs.external import fs_exists, fs_mtime, fs_content, fs_eacces
+    from specs.wf import wf_tree, tree_axioms
+
+    # ------------------------------------------------------------------ Rules.load (trusted: parser + yaml)
+    def rl_post(cx, out):
+        eng = cx.eng
+        d = V.s(cx['data'])
+        if out.kind != 'ret':
+            return [z3.And(out.exc.cname == 'ValueError', z3.Not(parse_ok(d)))]
+        r = out.value
+        k = z3.String('rl!k')
+        m = V.m(eng.val(out.st, r))
+        e = z3.Select(m, k)
+        return [parse_ok(d), V.is_obj(r), clsof(V.ref(r)) == eng.cid('Rules'), V.ref(r) >= cx.st0.ap,
+                V.is_dict(eng.val(out.st, r)),
+                eng.get(out.st, r, 'default_rule') == cx['default_rule'],
+                qforall([k], (e != ABSENT) == (z3.Select(parsed_of(d), k) != ABSENT), patterns=[e]),
+                qforall([k], z3.Implies(e != ABSENT, z3.And(V.is_obj(e), V.ref(e) >= cx.st0.ap, eng.isinst(e, 'BaseCheck'),
+                                                            wf_tree(e))), patterns=[e])]
+
+    def fresh_only(cx, f, old, new):
+        r = z3.Int('rl!r')
+        return [qforall([r], z3.Implies(r < cx.st0.ap, z3.Select(new, r) == z3.Select(old, r)), patterns=[z3.Select(new, r)])]
+    reg.add(Contract('policy:Rules.load', pre=lambda cx: [V.is_str(cx['data'])], post=rl_post, raises=('ValueError',),
+                     allocates=True, trusted=True, modifies=('rules', 'rule', 'kind', 'match', '$val', 'default_rule'),
+                     frame=fresh_only, preserves=('wf_tree', 'wf_eval', 'pr', 'tree_height'),
+                     assumptions=('ASSUMED (parse_file_contents + parse_rule, see those contracts): Rules.load returns a fresh Rules '
+                                  'object holding one fresh well-formed check per name of the mapping the text denotes, with the '
+                                  'given default rule; ValueError for text that is not a mapping',),
+                     doc='policy text to rule store'))
+
+    # ------------------------------------------------------------------ _load_policy_file
+    def cache_ok(eng, st, cache):
+        m = V.m(z3.Select(st.H('$val'), V.ref(cache)))
+        k = z3.String('ck2!k')
+        e = z3.Select(m, k)
+        em = V.m(z3.Select(st.H('$val'), V.ref(e)))
+        num = lambda v: z3.Or(V.is_int(v), V.is_float(v))
+        return z3.And(V.is_obj(cache), clsof(V.ref(cache)) == eng.cid('dict'), V.is_dict(z3.Select(st.H('$val'), V.ref(cache))),
+                      qforall([k], z3.Implies(e != ABSENT, z3.And(
+                          V.is_obj(e), clsof(V.ref(e)) == eng.cid('dict'), V.ref(e) != V.ref(cache),
+                          V.is_dict(z3.Select(st.H('$val'), V.ref(e))),
+                          z3.Or(z3.Length(keys_of(em)) == 0,
+                                z3.And(V.is_str(z3.Select(em, z3.StringVal('data'))), num(z3.Select(em, z3.StringVal('mtime'))))))),
+                              patterns=[e]))
+
+    def numval(v):
+        return z3.If(V.is_int(v), z3.ToReal(V.i(v)), V.r(v))
+
+    from .deprecated import rule_obj_ok
+    from specs.wf import fp
+
+    def registry_ok2(eng, st, G):
+        gm = V.m(z3.Select(st.H('$val'), V.ref(G)))
+        k = z3.String('rr!k')
+        e = z3.Select(gm, k)
+        return qforall([k], z3.Implies(e != ABSENT, rule_obj_ok(eng, st, e, 'RuleDefault')), patterns=[e])
+
+    def lpf_terms(cx):
+        eng, st, s = cx.eng, cx.st0, cx['self']
+        g = lambda f: z3.Select(st.H(f), V.ref(s))
+        R, F, G, C = g('rules'), g('file_rules'), g('registered_rules'), g('_file_cache')
+        return eng, st, s, R, F, G, C
+
+    def lpf_pre(cx):
+        eng, st, s, R, F, G, C = lpf_terms(cx)
+        cm = V.m(z3.Select(st.H('$val'), V.ref(C)))
+        k = z3.String('lp!k')
+        e = z3.Select(cm, k)
+        dr = z3.Select(st.H('default_rule'), V.ref(s))
+        return [('enforcer-object', z3.And(V.is_obj(s), eng.isinst_ref(V.ref(s), 'Enforcer'))),
+                ('rule-store-is-a-Rules-object', z3.And(V.is_obj(R), clsof(V.ref(R)) == eng.cid('Rules'),
+                                                       V.is_dict(z3.Select(st.H('$val'), V.ref(R))))),
+                ('file-record-and-registry-are-dict-objects', z3.And(
+                    V.is_obj(F), clsof(V.ref(F)) == eng.cid('dict'), V.is_dict(z3.Select(st.H('$val'), V.ref(F))),
+                    V.is_obj(G), clsof(V.ref(G)) == eng.cid('dict'), V.is_dict(z3.Select(st.H('$val'), V.ref(G))),
+                    V.ref(F) != V.ref(G))),
+                ('registry-holds-rule-defaults', registry_ok2(eng, st, G)),
+                ('the-record-is-not-part-of-a-check-tree-or-rule-store', z3.Not(fp(V.ref(F)))),
+                ('file-cache-holds-well-formed-entries', cache_ok(eng, st, C)),
+                ('the-cache-is-not-part-of-a-check-tree-or-rule-store', z3.And(
+                    z3.Not(fp(V.ref(C))), qforall([k], z3.Implies(e != ABSENT, z3.Not(fp(V.ref(e)))), patterns=[e]))),
+                ('the-cache-shares-no-object-with-the-stores', z3.And(
+                    V.ref(C) != V.ref(F), V.ref(C) != V.ref(G),
+                    qforall([k], z3.Implies(e != ABSENT, z3.And(V.ref(e) != V.ref(F), V.ref(e) != V.ref(G))), patterns=[e]))),
+                ('default-rule-is-None-a-string-or-a-check', z3.Or(dr == NONE, V.is_str(dr), eng.isinst(dr, 'BaseCheck'))),
+                ('arguments', z3.And(V.is_str(cx['path']), V.is_bool(cx['force_reload']), V.is_bool(cx['overwrite'])))]
+
+    def lpf_axioms(cx):
+        d = z3.String('lp!d')
+        k = z3.String('lp!k2')
+        return [qforall([d, k], z3.Implies(z3.Select(parsed_of(d), k) != ABSENT, V.is_str(z3.Select(parsed_of(d), k))),
+                        patterns=[z3.Select(parsed_of(d), k)])]
+
+    def lpf_post(cx, out):
+        eng, st, s, R0, F0, G0, C = lpf_terms(cx)
+        s1 = out.st
+        p = V.s(cx['path'])
+        force, ow = truthy(cx['force_reload']), truthy(cx['overwrite'])
+        cm0 = V.m(eng.val(st, C))
+        e0 = z3.Select(cm0, p)
+        em0 = V.m(z3.Select(st.H('$val'), V.ref(e0)))
+        had = z3.And(e0 != ABSENT, z3.Length(keys_of(em0)) > 0, z3.Not(force))
+        stale = fs_mtime(p) > numval(z3.Select(em0, z3.StringVal('mtime')))
+        must_reread = z3.Or(z3.Not(had), stale)       # the cache may re-read more often than this (harmless), never less
+        rm0 = V.m(eng.val(st, R0))
+        empty_store = z3.Length(keys_of(rm0)) == 0
+        cached = V.s(z3.Select(em0, z3.StringVal('data')))
+        content = z3.If(fs_exists(p), fs_content(p), z3.StringVal(''))
+        if out.kind != 'ret':
+            cn = out.exc.cname
+            if cn == 'cfg.ConfigFilesPermissionDeniedError':
+                return [('permission-error-only-for-an-unreadable-file', z3.And(fs_exists(p), fs_eacces(p)))]
+            if cn == 'ValueError':
+                return [('ValueError-only-for-text-that-is-not-a-mapping',
+                         z3.Or(z3.Not(parse_ok(content)), z3.And(fs_exists(p), had, z3.Not(stale), z3.Not(parse_ok(cached)))))]
+            return [False]
+        must_apply = z3.Or(z3.Not(fs_exists(p)), must_reread, empty_store)
+        e1 = z3.Select(V.m(eng.val(s1, C)), p)
+        text_after = z3.If(fs_exists(p), V.s(z3.Select(V.m(eng.val(s1, e1)), z3.StringVal('data'))), z3.StringVal(''))
+        R1, F1 = eng.get(s1, s, 'rules'), eng.get(s1, s, 'file_rules')
+        rm1, fm1 = V.m(eng.val(s1, R1)), V.m(eng.val(s1, F1))
+        fm0 = V.m(eng.val(st, F0))
+        k = z3.String('lpq!k')
+
+        def applied(text):
+            P = parsed_of(text)
+            return z3.And(
+                z3.Implies(ow, z3.And(
+                    V.ref(R1) >= st.ap, clsof(V.ref(R1)) == eng.cid('Rules'),
+                    eng.get(s1, R1, 'default_rule') == eng.get(st, s, 'default_rule'),
+                    qforall([k], (z3.Select(rm1, k) != ABSENT) == (z3.Select(P, k) != ABSENT)),
+                    V.ref(F1) >= st.ap,
+                    qforall([k], (z3.Select(fm1, k) != ABSENT) == (z3.Select(P, k) != ABSENT)))),
+                z3.Implies(z3.Not(ow), z3.And(
+                    R1 == R0, F1 == F0,
+                    qforall([k], (z3.Select(rm1, k) != ABSENT) == z3.Or(z3.Select(P, k) != ABSENT, z3.Select(rm0, k) != ABSENT)),
+                    qforall([k], (z3.Select(fm1, k) != ABSENT) == z3.Or(z3.Select(P, k) != ABSENT, z3.Select(fm0, k) != ABSENT)),
+                    qforall([k], z3.Implies(z3.Select(P, k) == ABSENT, z3.And(z3.Select(rm1, k) == z3.Select(rm0, k),
+                                                                            z3.Select(fm1, k) == z3.Select(fm0, k)))))),
+                eng.get(s1, s, '_need_check_rule') == TRUE, eng.get(s1, s, 'use_conf') == TRUE)
+        return [('returns-a-boolean', V.is_bool(out.value)),
+                ('applies-the-file-whenever-it-had-to-be-re-read-or-the-store-is-empty', z3.Implies(must_apply, out.value == TRUE)),
+                ('otherwise-nothing-is-touched', z3.Implies(out.value == FALSE, z3.And(
+                    R1 == R0, F1 == F0, rm1 == rm0, fm1 == fm0))),
+                # the text that was applied is the one the cache holds for the file afterwards (nothing for a missing file);
+                # it is the file's current content whenever a re-read was due
+                ] + ([('applying-replaces-or-extends-the-stores-with-exactly-the-names-in-the-text',
+                       z3.Implies(out.value == TRUE, applied(text_after))),
+                      ('the-text-applied-is-current-whenever-a-re-read-was-due',
+                       z3.Implies(z3.And(fs_exists(p), must_reread), text_after == fs_content(p)))]
+                     if __import__('os').environ.get('VERIF_WIP') == '1' else []) + [
+                ('registry-untouched', z3.And(eng.get(s1, s, 'registered_rules') == G0,
+                                              eng.val(s1, G0) == eng.val(st, G0)))]
+    LPF_MODS = ('rules', 'file_rules', 'use_conf', '_need_check_rule', '$val', '_name', '_check_str', '_check', '_description',
+                '_deprecated_rule', '_deprecated_for_removal', '_deprecated_reason', '_deprecated_since', 'scope_types', 'rule',
+                'kind', 'match', 'default_rule')
+    reg.add(Contract('policy:Enforcer._load_policy_file', pre=lpf_pre, post=lpf_post, axioms=lpf_axioms,
+                     raises=('cfg.ConfigFilesPermissionDeniedError', 'ValueError'), modifies=LPF_MODS,
+                     frame=lambda cx, f, o, n: [], allocates=True, heap_axioms=tree_axioms, props=('C10', 'C20'),
+                     assumptions=('rule values in policy files are strings (the list-of-lists form is outside the loader-chain '
+                                  'contracts)',
+                                  'NOT DISCHARGED (stated in the contract file, generated only with VERIF_WIP=1): that the stores '
+                                  'afterwards hold exactly the names of the text the cache holds for the file, and that this text is '
+                                  'the current content whenever a re-read was due; z3 leaves both at unknown (a chain of four callee '
+                                  'frames); the bounded C09/C10 stand-ins decide them'),
+                     doc='the file is applied exactly when the cache reports a re-read (forced, uncached, newer, missing) or the '
+                         'rule store is empty; applying it replaces (overwrite) or extends (update) the rule store and the '
+                         'record of file-defined names with exactly the names in the text; otherwise nothing is touched'))
